@@ -1187,6 +1187,8 @@ class SeriesWorld(World):
         else:
             exp = sm.t_rowwise(o.model, lambda x: nf(x, c), tol=1e-12)
             thunk = lambda: self._PYOP[fn](o.real, c)
+        # a binary arithmetic operator (one operand a number): the result is tight
+        exp.tight = True
         return self._exec(step, "scalarop." + fn + (".r" if refl else ""), [("recv", h)], thunk, out=step["out"][0], expect=exp)
 
     def _do_unary(self, step, a):
